@@ -14,10 +14,15 @@ MANIFEST = dict(
          "meaning of the tokens ripgrep produces = git's component-wise matching (gitignore_pattern_eq_git); (line "
          "level) for every line in an executable class (both line readers run, tokens = segment form, flags agree) "
          "ripgrep's reading = GitSem's; (file level) last matching line wins through the real pipeline (add_line, glob "
-         "set, reverse scan) = git's file verdict; (tree level, PARTIAL) walker model visited = git_visited for any ignore "
-         "files at any levels whose lines are in the class, composing last-match-wins, directory-only, nearest file "
-         "first and pruning. Missing lemma (stated, tested on every generated line): every line of the documented "
-         "grammar is in the class (its glob-parser half is proved in C12). Known findings refuted by witness. Tie to "
+         "set, reverse scan) = git's file verdict; (tree level) walker model visited = git_visited and equal listings of "
+         "every finite tree, for any ignore files at any levels whose lines are lines of the documented grammar "
+         "(rendered abstract syntax: optional !, optional leading /, pieces of plain/escaped literals, ?, *, positive "
+         "classes not admitting '/', ** as a whole piece, optional trailing /, trailing blanks; comments; blank lines), "
+         "composing last-match-wins, directory-only, nearest file first and pruning; grammar_lines_in_class proves "
+         "that both line readers (add_line incl. blank trimming and the **/ and /* rewriting; git's reader) put every "
+         "grammar line into the executable class. Not covered by the grammar theorem (class hypothesis or known "
+         "finding): negated classes / classes admitting '/', braces, escaped backslash or slash, a leading escaped ! "
+         "or #, tabs. Known findings refuted by witness. Tie to "
          "the code: three-way, git ls-files vs rg --files and ignore::WalkBuilder and "
          "Gitignore::matched_path_or_any_parents vs the model; extracted GitSem vs real git.",
     note="trusted: git 2.39 as executable specification; Coq kernel, extraction, OCaml driver, Rust harness; C12's trusted "
@@ -187,6 +192,42 @@ def gen_idiom_repo(rng):
     ignores = {parent: lines}
     ignores.update(nested)
     return dict(tree=tree, ignores=ignores, ci=rng.random() < 0.1)
+
+
+def gen_blank_repo(rng):
+    """names with blanks, written with an UNESCAPED inner blank followed only by escapes (and blanks) up to the end
+    of the line: git drops only the unescaped trailing run (`a \\b` is the name "a b", `c \\ ` is "c  "); the files
+    named like the truncated prefixes exist too, so a wrong cut shows in the listing"""
+    tree = {}
+    lines = []
+    for _ in range(rng.randint(1, 3)):
+        pre = rng.choice([b"a", b"c", b"d", b"ab", b"A.", b"x-y", b"d\\ e".replace(b"\\", b"")])
+        tail = bytes(rng.choice(b"b e!a") for _ in range(rng.randint(1, 3)))
+        full = pre + b" " + tail
+        k = rng.randint(0, 3)
+        if k == 0:
+            pat = esc(pre) + b" " + b"".join(b"\\" + bytes([c]) for c in tail)          # a \b\ \!
+        elif k == 1:
+            pat = esc(pre) + b" " + b"".join((b"\\" + bytes([c])) if c in b" !" else bytes([c]) for c in tail)
+        elif k == 2:
+            pat = esc(pre) + b"\\ " + esc(tail[:1]) + b" " + b"".join(b"\\" + bytes([c]) for c in tail[1:])
+            full = pre + b" " + tail[:1] + b" " + tail[1:]
+        else:
+            pat = esc(full)
+        pat += b" " * rng.choice([0, 0, 1, 2])
+        if rng.random() < 0.2:
+            pat = b"!" + pat
+            lines.append(esc(pre) + b"*")
+        lines.append(pat)
+        sub = rng.choice([b"", b"sub/"])
+        if sub:
+            tree[b"sub"] = "d"
+        for name in {full, pre, pre + b" ", full.rstrip(b" ") or full, full + b" ", pre + b" " + tail[:1], b"keep"}:
+            if valid_name(name) and not name.endswith(b"/"):
+                tree[sub + name] = "f"
+                tree[name] = "f"
+    tree = {k: v for k, v in tree.items() if not (v == "f" and any(o.startswith(k + b"/") for o in tree))}
+    return dict(tree=tree, ignores={b"": lines}, ci=False)
 
 
 def gen_repo(rng, malformed):
@@ -632,6 +673,13 @@ CORPUS += [   # a lone `!` (empty pattern) matches nothing; it used to re-includ
     dict(tree={b"a": "f", b"d": "d", b"d/b": "f", b"c": "f"}, ignores={b"": [b"a", b"d/", b"!"]}, ci=False),
     dict(tree={b"a": "f", b"d": "d", b"d/b": "f"}, ignores={b"": [b"a", b"/", b"!/", b"! "]}, ci=False),
 ]
+CORPUS += [   # an unescaped inner blank followed only by escapes / blanks: only the unescaped trailing run is dropped
+    dict(tree={b"a": "f", b"a b": "f", b"sub": "d", b"sub/a": "f", b"sub/a b": "f", b"keep": "f"}, ignores={b"": [b"a \\b"]}, ci=False),
+    dict(tree={b"c": "f", b"c ": "f", b"c  ": "f", b"keep": "f"}, ignores={b"": [b"c \\ "]}, ci=False),
+    dict(tree={b"d e": "f", b"d e !": "f", b"d": "f", b"keep": "f"}, ignores={b"": [b"d\\ e \\!"]}, ci=False),
+    dict(tree={b"x": "f", b"x  y": "f", b"x ": "f"}, ignores={b"": [b"x \\ \\y  "]}, ci=False),
+    dict(tree={b"plain": "f", b"plain  ": "f", b"p q": "f", b"p": "f"}, ignores={b"": [b"plain  ", b"p*", b"!p \\q "]}, ci=False),
+]
 KNOWN_CORPUS = [
     dict(tree={b"a": "d", b"a/c": "f", b"abc": "f", b"a-c": "f"}, ignores={b"": [b"a[!b]c"]}, ci=False),          # class vs '/'
     dict(tree={b"a": "f", b"b": "f", b"{a,b}": "f"}, ignores={b"": [b"{a,b}"]}, ci=False),                       # D12
@@ -648,7 +696,9 @@ def run(ctx):
     check_repos(ctx, CORPUS)
     check_repos(ctx, KNOWN_CORPUS)
     n = ctx.count(220)
-    repos = [gen_idiom_repo(rng) if i % 5 == 0 else gen_repo(rng, rng.random() < 0.25) for i in range(n)]
+    repos = [gen_idiom_repo(rng) if i % 5 == 0 else (gen_blank_repo(rng) if i % 7 == 3 else gen_repo(rng, rng.random() < 0.25))
+             for i in range(n)]
+    ctx.cov["blank_escape_repos"] = sum(1 for i in range(n) if i % 5 != 0 and i % 7 == 3)
     ctx.cov["idiom_repos"] = sum(1 for i in range(n) if i % 5 == 0)
     check_repos(ctx, repos)
     check_one_file(ctx, CORPUS + KNOWN_CORPUS + repos)
